@@ -19,9 +19,9 @@ from __future__ import annotations
 
 from fractions import Fraction as F
 
-from ..absint import TOP, Evaluator, FuncV, Lin, Obj, SliceV, Sym, Unmodelled, simplify
+from ..absint import Raised, TOP, Evaluator, FuncV, Lin, Obj, SliceV, Sym, Unmodelled, simplify
 from ..harness import da_attr_models, da_method_models
-from ..kernel import Data, KernelEval, OrderType, Quot, SumV, Term, order_types_point_vs_edges
+from ..kernel import KernelFault, Data, KernelEval, OrderType, Quot, SumV, Term, order_types_point_vs_edges
 from ..xmodel import dimsym, make_da, make_grid
 
 EXPLANATION = (
@@ -150,6 +150,9 @@ def check(ctx):
     for ot in ots:
         try:
             outs, out = run_kernel(P, ot)
+        except KernelFault as e:
+            first_bad.setdefault("R07.5", (ot, str(e)))
+            continue
         except Unmodelled as e:
             ctx.unknown("R07.5", f"order type {ot.describe()}", str(e))
             continue
@@ -317,6 +320,9 @@ def _wrapper(ctx, P):
     except Unmodelled as e:
         ctx.unknown("R07.4", "conservative_interpolation", str(e))
         return
+    except Raised as r:
+        ctx.report("R07.4", raw, "conservative_interpolation wrapper", f"a plain call of the wrapper raises {r.typ}" + (f" ({r.msg})" if r.msg else ""))
+        return
     except Exception as e:
         ctx.unknown("R07.4", "conservative_interpolation", f"{type(e).__name__}: {e}")
         return
@@ -335,8 +341,12 @@ def _wrapper(ctx, P):
         if not (isinstance(icd, list) and len(icd) == 3 and all(len(x) == 1 for x in icd)):
             bad = bad or f"input_core_dims={icd!r}; expected one core dim for each of phi, theta, target"
         else:
-            dims_of = [a[1].attrs["dims"], a[2].attrs["dims"], a[3].attrs["dims"]]
-            if not (icd[0][0] in dims_of[0] and icd[1][0] in dims_of[1] and icd[2][0] in dims_of[2] and icd[0][0] != Sym("t")):
+            if not all(isinstance(x, Obj) and "dims" in x.attrs for x in a[1:4]) or len(a) < 4:
+                bad = bad or f"apply_ufunc is applied to {a[:4]!r}; expected the kernel followed by the three data arrays"
+                dims_of = None
+            else:
+                dims_of = [a[1].attrs["dims"], a[2].attrs["dims"], a[3].attrs["dims"]]
+            if dims_of is not None and not (icd[0][0] in dims_of[0] and icd[1][0] in dims_of[1] and icd[2][0] in dims_of[2] and icd[0][0] != Sym("t")):
                 bad = bad or f"input_core_dims={icd!r} are not the column dimensions of the respective arguments {dims_of}"
         if not (isinstance(ocd, list) and len(ocd) == 1 and len(ocd[0]) == 1):
             bad = bad or f"output_core_dims={ocd!r}"
